@@ -193,9 +193,40 @@ package server
 //@ extern func GetSHA256Digest
 //@   modifies nothing
 
+// ---- error identity between verifyBlob and PullModel ----
+// errwraps(e, t): errors.Is(e, t) - t is e itself or is reached from e by Unwrap. (Interface values
+// are single integer terms in govc; the parameters are declared int because the universe type
+// `error` cannot be named in a spec func signature.)
+//@ spec func errwraps(e int, t int) bool
+// fmtverb(f, p, n, inverb): the verb character that consumes operand n (0-based) of the format f when
+// the scan is at byte p; inverb = the scan is between a '%' and its verb character. 0 = f has no verb
+// for operand n. This is fmt's scan (doPrintf) for the plain grammar %[flags][width][.prec]verb and
+// "%%"; for '*' (width taken from an operand) and '[' (explicit operand index) nothing is claimed
+// (uninterpreted fmtverbx).
+//   37 '%'   32 ' '  35 '#'  43 '+'  45 '-'  46 '.'  48..57 digits   42 '*'  91 '['
+//@ spec func fmtverbx(f string, p int, n int) int
+//@ spec func fmtverb(f string, p int, n int, inverb bool) int = ite(p < 0 || p >= len(f) || n < 0, 0, ite(!inverb, fmtverb(f, p + 1, n, f[p] == 37), ite(f[p] == 37, fmtverb(f, p + 1, n, false), ite(f[p] == 32 || f[p] == 35 || f[p] == 43 || f[p] == 45 || f[p] == 46 || (48 <= f[p] && f[p] <= 57), fmtverb(f, p + 1, n, true), ite(f[p] == 42 || f[p] == 91, fmtverbx(f, p, n), ite(n == 0, f[p], fmtverb(f, p + 1, n - 1, false)))))))
+//@   decreases len(f) - p
+
+// verifyBlob(digest) == nil means: the file that GetBlobsPath(digest) names was opened and hashed and
+// its SHA-256 equals digest. Once the file was hashed, every error returned is recognised by
+// errors.Is(err, errDigestMismatch): that test is what makes PullModel remove the corrupt blob; a
+// mismatch reported as any other error leaves the blob under its final name, and the next pull takes
+// it for a cache hit and never hashes it.
+// ghost_hashed  1 after GetSHA256Digest returned (the file content was read and hashed)
+// Library fact used (assume-at, props/C03.json assumptions): fmt.Errorf wraps the operand of a %w verb
+// (119 'w'): errors.Is(result, operand) holds. Stated for the first three operands.
 //@ func verifyBlob
 //@   assume-at call GetBlobsPath #1 : ErrInvalidDigestFormat != nil   -- package-level errors.New value, assigned once at package init, never reassigned
 //@   modifies nothing
+//@   ghost-at entry : ghost_hashed := 0
+//@   ghost-at after call GetSHA256Digest : ghost_hashed := 1
+//@   assume-at after call Errorf : (len(arg1) > 0 && fmtverb(arg0, 0, 0, false) == 119 ==> errwraps(result, arg1[0])) && (len(arg1) > 1 && fmtverb(arg0, 0, 1, false) == 119 ==> errwraps(result, arg1[1])) && (len(arg1) > 2 && fmtverb(arg0, 0, 2, false) == 119 ==> errwraps(result, arg1[2]))     -- library fact: fmt.Errorf("...%w...", e) wraps e
+//@   ensures result == nil ==> ghost_hashed == 1
+//@   ensures ghost_hashed == 1 && result != nil ==> errwraps(result, errDigestMismatch)
+// the file hashed is the blob the digest names, and nil is returned only for equal digests
+//@   assert-at call os.Open #1 : arg0 == blobpath(digest)
+//@   assert-at return #4 : result == nil && digest == fileDigest
 
 // Loops: 1 old manifest's layers (deleteMap)   2 download   3 verify.
 // (inside a range loop body the index of the current element is rangeindex + 1)
@@ -255,6 +286,20 @@ package server
 // the manifest is written only when every layer was obtained and every freshly downloaded one verified
 //@   assert-at call WriteFile #1 : 0 <= wk() && wk() < len(layers) ==> ghost_wdl == 1
 //@   assert-at call WriteFile #1 : ghost_wfresh == 1 ==> ghost_wver == 1
+// REMOVAL ON MISMATCH, tied to verifyBlob's own result (clauses appended here: the obligation names
+// assert.<n> above are referred to by known_findings.json and selftest/C03): when verifyBlob reported
+// a mismatch in the way its contract promises - an error e with errors.Is(e, errDigestMismatch) -
+// the blob of that layer is removed before PullModel returns the error. ghost_mm above only follows
+// whatever test PullModel makes; ghost_vmm follows what verifyBlob returned, so a test against another
+// sentinel, a comparison with == (false for a wrapped error), or an error that does not wrap the
+// sentinel all fail here or at verifyBlob#post. The file removed is the blob of the layer being verified.
+// ghost_vmm    1 iff the last verifyBlob call returned an error e with errors.Is(e, errDigestMismatch)
+// Library fact used (assume-at): errors.Is(err, target) == errwraps(err, target) - the definition of errwraps.
+//@   ghost-at entry : ghost_vmm := 0
+//@   ghost-at after call verifyBlob : ghost_vmm := ite(result != nil && errwraps(result, errDigestMismatch), 1, 0)
+//@   assume-at after call errors.Is : result <==> errwraps(arg0, arg1)     -- library fact: errwraps is errors.Is
+//@   assert-at return #5 : ghost_vmm == 1 ==> ghost_rm == 1
+//@   assert-at call os.Remove #1 : ghost_vmm == 1 && arg0 == blobpath(layer.Digest)
 
 // ==== C03 (B): blobDownload.run - the -partial file gets its final name only after every part
 // ==== goroutine returned nil and the file was closed ====
